@@ -832,6 +832,168 @@ theorem C09_history_never_without_task (cfg : Cfg) (beh : Beh) (ops : List Op) (
       · exact ih _ _ s1 (fun o d p h => h1 o d p (List.mem_cons_of_mem _ h)) (fun src h => h2 src (List.mem_cons_of_mem _ h)) e he hei
   exact gen ops [] 0 (fun c hc => by simp [World.get] at hc) hops hcopy
 
+/-! ### every event of every history -/
+
+/-- a predicate that holds of everything any call can emit holds of every event of every history -/
+theorem run_allEv (cfg : Cfg) (beh : Beh) (P : Ev → Prop) (hP : ∀ i k, EnvPred ⟨cfg, beh, i, k⟩ P)
+    (hapi : ∀ i k name o, P (.api i k name o)) (hrej : ∀ i k name, P (.rejected i k name)) (ops : List Op) :
+    ∀ e ∈ (run cfg beh ops).2, P e := by
+  have one : ∀ (w : World) (k : Nat) (op : Op), ∀ e ∈ (stepAll cfg beh w k op).2, P e := by
+    intro w k op e he
+    have h := stepAll_shape cfg beh w k op
+    generalize stepAll cfg beh w k op = r at h he
+    cases h with
+    | copy src sc hop h1 h2 => simp only [List.mem_singleton] at he; rw [he]; exact hapi _ _ _ _
+    | step op' hs hd =>
+      cases hs with
+      | rejected name => simp only [List.mem_singleton] at he; rw [he]; exact hrej _ _ _
+      | call tag slot c f ret name htag hget hf =>
+        rw [onCore_snd, List.mem_append] at he
+        rcases he with he | he
+        · exact apiStep_allEv (hP op.inst k) hf _ e he
+        · simp only [List.mem_singleton] at he; rw [he]; exact hapi _ _ _ _
+      | destroyManual c name hop hm hget => simp only [List.mem_singleton] at he; rw [he]; exact hapi _ _ _ _
+      | destroyAuto c name hm hget =>
+        rw [List.mem_append] at he
+        rcases he with he | he
+        · exact allEv_finalExit (hP op.inst k) _ e he
+        · simp only [List.mem_singleton] at he; rw [he]; exact hapi _ _ _ _
+      | save c name o hget => simp only [List.mem_singleton] at he; rw [he]; exact hapi _ _ _ _
+  have gen : ∀ (ops : List Op) (w : World) (k : Nat), ∀ e ∈ (runFrom cfg beh w k ops).2, P e := by
+    intro ops
+    induction ops with
+    | nil => intro w k e he; cases he
+    | cons op ops ih =>
+      intro w k e he
+      simp only [runFrom, List.mem_append] at he
+      rcases he with he | he
+      · exact one w k op e he
+      · exact ih _ _ e he
+  exact gen ops [] 0
+
+/-- what a delivery's control object shows: its own id is the state the delivery is keyed to, `isActive(j)`
+    is one-hot at the machine's active state -/
+def ViewOk (cfg : Cfg) : Ev → Prop
+  | .cb k _ o => o.stateId = k.sid ∧ o.ctlActive = (List.range cfg.n).map (fun j => o.machActive == j)
+  | _ => True
+
+/-- **C06 over whole histories — every callback of every history sees a consistent control**: for every
+    delivery event (every layer: injections and the state's own callback, every control flavour) of every
+    history, `control.stateId()` is the id of the state the callback belongs to, and `control.isActive(j)`
+    answers exactly `j == the machine's active state` for every `j` (including 0). -/
+theorem C06_history_view (cfg : Cfg) (beh : Beh) (ops : List Op) : ∀ e ∈ (run cfg beh ops).2, ViewOk cfg e :=
+  run_allEv cfg beh (ViewOk cfg)
+    (fun _ _ => ⟨fun _ _ _ _ _ _ _ => ⟨rfl, rfl⟩, fun _ _ _ _ => trivial, fun _ => trivial⟩)
+    (fun _ _ _ _ => trivial) (fun _ _ _ => trivial) ops
+
+/-- … and every event carries the index of the call that produced it: no callback runs outside an API call -/
+theorem C05_history_events_in_calls (cfg : Cfg) (beh : Beh) (ops : List Op) :
+    ∀ e ∈ (run cfg beh ops).2, ∀ k vis o, e = Ev.cb k vis o → k.op < ops.length := by
+  have gen : ∀ (ops : List Op) (w : World) (k0 : Nat), ∀ e ∈ (runFrom cfg beh w k0 ops).2, ∀ k vis o, e = Ev.cb k vis o →
+      k0 ≤ k.op ∧ k.op < k0 + ops.length := by
+    intro ops
+    induction ops with
+    | nil => intro w k0 e he; cases he
+    | cons op ops ih =>
+      intro w k0 e he k vis o hk
+      simp only [runFrom, List.mem_append] at he
+      rcases he with he | he
+      · have h := stepAll_shape cfg beh w k0 op
+        have key : ∀ e ∈ (stepAll cfg beh w k0 op).2, ∀ k vis o, e = Ev.cb k vis o → k.op = k0 := by
+          intro e he
+          generalize stepAll cfg beh w k0 op = r at h he
+          have hP : EnvPred ⟨cfg, beh, op.inst, k0⟩ (fun e => ∀ k vis o, e = Ev.cb k vis o → k.op = k0) :=
+            ⟨(fun _ _ _ _ _ _ _ k vis o e => by cases e; rfl), (fun _ _ _ _ k vis o e => by cases e), (fun _ k vis o e => by cases e)⟩
+          cases h with
+          | copy src sc hop h1 h2 => simp only [List.mem_singleton] at he; rw [he]; intro k vis o e; cases e
+          | step op' hs hd =>
+            cases hs with
+            | rejected name => simp only [List.mem_singleton] at he; rw [he]; intro k vis o e; cases e
+            | call tag slot c f ret name htag hget hf =>
+              rw [onCore_snd, List.mem_append] at he
+              rcases he with he | he
+              · exact apiStep_allEv hP hf _ e he
+              · simp only [List.mem_singleton] at he; rw [he]; intro k vis o e; cases e
+            | destroyManual c name hop hm hget => simp only [List.mem_singleton] at he; rw [he]; intro k vis o e; cases e
+            | destroyAuto c name hm hget =>
+              rw [List.mem_append] at he
+              rcases he with he | he
+              · exact allEv_finalExit hP _ e he
+              · simp only [List.mem_singleton] at he; rw [he]; intro k vis o e; cases e
+            | save c name o hget => simp only [List.mem_singleton] at he; rw [he]; intro k vis o e; cases e
+        have := key e he k vis o hk
+        simp only [List.length_cons]
+        omega
+      · have := ih _ (k0 + 1) e he k vis o hk
+        simp only [List.length_cons]
+        omega
+  intro e he k vis o hk
+  have := gen ops [] 0 e he k vis o hk
+  omega
+
+theorem ownSig_api (i k : Nat) (name : String) (o : ApiObs) : ownSig [Ev.api i k name o] = [] := rfl
+
+/-- **C02 over whole histories — a request is inert until processed**: `changeTo()` / `changeWith()` from
+    outside, from any world, run no callback of any kind and leave the active state of every instance as it
+    was; when accepted, exactly that request (origin: none, the destination, the payload) is outstanding -/
+theorem C02_history_request_inert (cfg : Cfg) (beh : Beh) (w : World) (k i d : Nat) :
+    (∀ j, actOf ((stepAll cfg beh w k (.changeTo i d)).1.get j) = actOf (w.get j)) ∧
+    ownSig (stepAll cfg beh w k (.changeTo i d)).2 = [] ∧
+    (∀ j x, actOf ((stepAll cfg beh w k (.changeWith i d x)).1.get j) = actOf (w.get j)) ∧
+    (∀ x, ownSig (stepAll cfg beh w k (.changeWith i d x)).2 = []) ∧
+    (∀ c c', w.get i = some c → (c.active != 255 && idOk cfg d) = true →
+      (stepAll cfg beh w k (.changeTo i d)).1.get i = some c' → c'.request = ⟨255, d, none⟩) := by
+  have core : ∀ (c : Core) (p : Option Nat) (name : String) (j : Nat), w.get i = some c →
+      actOf ((onCore cfg w i k name c (extChange ⟨cfg, beh, i, k⟩ d p)).1.get j) = actOf (w.get j) ∧
+      ownSig (onCore cfg w i k name c (extChange ⟨cfg, beh, i, k⟩ d p)).2 = [] := by
+    intro c p name j hg
+    rw [onCore_fst, onCore_snd, ownSig_append, ownSig_api, List.append_nil]
+    refine ⟨?_, ownSig_logEv _ _ _⟩
+    by_cases hj : j = i
+    · subst hj; rw [World.get_put_same, hg]; rfl
+    · rw [World.get_put_ne _ _ _ _ hj]
+  refine ⟨?_, ?_, ?_, ?_, ?_⟩
+  · intro j
+    simp only [stepAll, step, Op.inst, Op.name]
+    cases hg : w.get i with
+    | none => rfl
+    | some c =>
+      dsimp only
+      split
+      · exact (core c none _ j hg).1
+      · rfl
+  · simp only [stepAll, step, Op.inst, Op.name]
+    cases hg : w.get i with
+    | none => rfl
+    | some c =>
+      dsimp only
+      split
+      · exact (core c none _ 0 hg).2
+      · rfl
+  · intro j x
+    simp only [stepAll, step, Op.inst, Op.name]
+    cases hg : w.get i with
+    | none => rfl
+    | some c =>
+      dsimp only
+      split
+      · exact (core c (some x) _ j hg).1
+      · rfl
+  · intro x
+    simp only [stepAll, step, Op.inst, Op.name]
+    cases hg : w.get i with
+    | none => rfl
+    | some c =>
+      dsimp only
+      split
+      · exact (core c (some x) _ 0 hg).2
+      · rfl
+  · intro c c' hg hcond hget
+    simp only [stepAll, step, Op.inst, Op.name, hg] at hget
+    rw [if_pos hcond, onCore_fst, World.get_put_same] at hget
+    cases hget
+    rfl
+
 /-- non-vacuity: two instances interleaved, a copy, a vetoed request; instance 0's path is paired and the
     hypotheses of `C01_history` hold for it -/
 example :
